@@ -410,7 +410,18 @@ type run struct {
 	sh   shadow
 	rng  *rand.Rand
 	snap map[int]shadow
-	dead bool // a verdict or an error has been recorded: stop
+	dbs  []*dkv.DB // every database opened during this behaviour
+	dead bool      // a verdict or an error has been recorded: stop
+}
+
+// quiesce waits until no background task of any database of this behaviour is
+// queued or running. dkv's task queues are process-wide and a goroutine
+// started for one database may run the task of another one, so only when the
+// task groups of ALL databases are done is none of their tasks left.
+func (r *run) quiesce() {
+	for _, db := range r.dbs {
+		waitTasks(db)
+	}
 }
 
 func (r *run) violate(si int, what string, exp, obs any) {
@@ -524,12 +535,11 @@ func replayStore(bi int, beh []mbt.Step, in *mbt.Input, res *mbt.Result) {
 	r.s = dkvsched.New(tuneFrom(in))
 	defer func() {
 		r.s.Close()
-		if w.db != nil {
-			waitTasks(w.db)
-		}
+		r.quiesce()
 	}()
 	w.view = w.store.View("g0", "/db")
 	w.db = dkv.New(w.opts())
+	r.dbs = append(r.dbs, w.db)
 	r.s.SetMain(w.db)
 	if err := w.db.Start(nil); err != nil {
 		r.machinery(0, err)
@@ -666,6 +676,7 @@ func replayStore(bi int, beh []mbt.Step, in *mbt.Input, res *mbt.Result) {
 				// the WAL replay may rotate more often than dkv's task queue can hold
 				// while a gate is closed: the new database runs freely until it is open
 				w.db = dkv.New(w.opts())
+				r.dbs = append(r.dbs, w.db)
 				if err := w.db.Start([]recovery.CheckpointHandle{w.handles[id]}); err != nil {
 					pan = err
 				}
@@ -674,7 +685,7 @@ func replayStore(bi int, beh []mbt.Step, in *mbt.Input, res *mbt.Result) {
 				r.violate(si, fmt.Sprintf("re-opening the database from checkpoint %d fails: %v", id, pan), nil, nil)
 				return
 			}
-			waitTasks(w.db)
+			r.quiesce()
 			r.s.SetMain(w.db)
 			if err := r.s.AfterWrite(); err != nil {
 				r.machinery(si, err)
@@ -812,7 +823,8 @@ func (w *opWorld) adopt() error {
 	if err != nil {
 		return err
 	}
-	waitTasks(db)
+	w.dbs = append(w.dbs, db)
+	w.quiesce()
 	w.db = db
 	w.s.SetMain(db)
 	return w.s.AfterWrite()
@@ -946,9 +958,7 @@ func replayOperator(bi int, beh []mbt.Step, in *mbt.Input, res *mbt.Result) {
 	defer func() {
 		r.s.Close()
 		w.stop()
-		if w.db != nil {
-			waitTasks(w.db)
-		}
+		r.quiesce()
 	}()
 	if err := w.start(nil); err != nil {
 		r.machinery(0, err)
